@@ -714,6 +714,37 @@ def kw_line(op: dict) -> str:
     return f"kw 0 {refs} {bases} {calls} {ti}:{kv(to)} {keys}"
 
 
+def gen_header(rng: random.Random):
+    """main function (own domain) calling 0-3 sub-functions of custom domains; std operators from opset 17/18/19 or none"""
+    doms = ["dom.a", "dom.b", "this", "zz.y"]
+    n = rng.randint(0, 3)
+    subs = []
+    for i in range(n):
+        std = rng.choice(["op", "opset17", "opset19", None, None])
+        sf = {"domain": rng.choice(doms), "version": rng.randint(1, 3), "std": std, "calls": None}
+        if std is None and i > 0 and rng.random() < 0.6:
+            sf["calls"] = rng.randrange(i)
+        subs.append(sf)
+    calls = rng.sample(range(n), rng.randint(0, n)) if n else []
+    main = {"domain": rng.choice(doms + ["main.dom"]), "version": rng.randint(1, 2), "std": rng.choice(["op", "op", None, None]), "calls": calls}
+    # main without standard operators and without calls uses a custom-domain operator only (no "" import at all)
+    kw = {}
+    if rng.random() < 0.5:
+        kw["opset_version"] = rng.choice([15, 17, 20, 99])
+    if rng.random() < 0.3:
+        kw["ir_version"] = rng.choice([7, 9, 10])
+    return {"k": "header", "subs": subs, "main": main, "kw": kw}, "header"
+
+
+def header_line(op: dict, res: dict) -> str:
+    nd = lambda d: d or "~"  # noqa: E731
+    gi = ";".join(f"{nd(d)}={v}" for d, v in res["graph_imports"]) or "-"
+    fs = "|".join(f"{nd(d)}:{v}:{'-' if s_ is None else s_}" for d, v, s_ in res["funcs"]) or "-"
+    kw = op.get("kw", {})
+    table = ";".join(f"{k}={v}" for k, v in res["table"])
+    return f"header {gi} {fs} {kw.get('opset_version', '-')} {kw.get('ir_version', '-')} {res['latest']} {table} {res['max_ir']}"
+
+
 def gen_history_op(rng: random.Random, idx: int):
     r = rng.random()
     if r < 0.45:
@@ -733,6 +764,8 @@ def gen_history_op(rng: random.Random, idx: int):
         return {**o, "k": "evalctx"}, "evalctx"
     if r < 0.88:
         return {"k": "badpattern"}, "badpattern(fails)"
+    if r < 0.91:
+        return gen_header(rng)
     if r < 0.94:
         return {"k": "opset", "domain": rng.choice(["my.dom", "this", "other.dom", ""]), "version": rng.randint(1, 3)}, "opset"
     return {"k": "sugar"}, "sugar"
